@@ -209,6 +209,12 @@ func encodeRequest(sc *Scenario) (*encodedRequest, error) {
 		enc.REST = rr
 		enc.Method = rr.Method
 		enc.Target = rr.RawPath
+		for _, kv := range c.ExtraQuery {
+			if rr.RawQuery != "" {
+				rr.RawQuery += "&"
+			}
+			rr.RawQuery += queryEscape(kv.K) + "=" + queryEscape(kv.V)
+		}
 		if rr.RawQuery != "" {
 			enc.Target += "?" + rr.RawQuery
 		}
